@@ -12,6 +12,7 @@ THEOREMS = [("C03", ["C03_complete", "C03_long", "C03_long_is_crate", "C03_unbou
             ("DeDispatchTie", ["tie_de_any", "tie_de_ignored", "tie_de_forward", "de_any_is_generated", "de_ignored_is_generated", "de_is_generated"])]
 PROOF_FILES = ["proofs/DeProofs.v", "proofs/VarintProofs.v", "proofs/DeSoundBase.v", "proofs/DeSoundMain.v", "proofs/DeSoundReject.v", "proofs/DeSoundProofs.v", "proofs/DeSafetyProofs.v", "proofs/DeSoundTyped.v", "props/C03.v", "proofs/DeDispatchTie.v"]
 TRUSTED_BASE = [
+    "max_seq_size (Python: lib/directed.py seq_stats counts the items of every array / map of the generated value): the configuration is set to the longest sequence's length; that the value is then still the defined one is the property's statement (each sequence within the configured limit), the model De.v (c_max_seq compared per sequence) is run on the same lines; streams of datums through one DeserializerState (harness `dem`) are expected to give the specification's value for every datum -- the model has no state besides the reader and the configuration, it is compared datum by datum",
     "index malformations (Python): the leading varint of the union / enum value inside a specification-produced encoding is replaced (offset known from the wrapper: root, array of one, map of one, record after an int field; asserted against the specification's encoding of the inner value); that an index outside the schema must be rejected is the property's statement, the model De.v is compared on the same lines; targets from spec/Denote.v / DenoteOpt.v",
     "dispatch tie: translators/gen_dispatch.py (+ rustmatch.py) reads the arms of every deserialize_* method of DatumDeserializer into gen/GenDeDispatch.v; proofs/DeDispatchTie.v proves that model/De.v's de is the interpretation of those regenerated tables (the meaning of each action symbol, act_sem, is hand-written there)",
     "Coq 8.16.1 kernel; no axioms (Print Assumptions: closed)",
@@ -70,6 +71,10 @@ def index_positions(rng, quick):
         for null_first in (True, False):
             body = wrap.shift(ns, 2)
             inner.append([N("union", variants=[1, 2] if null_first else [2, 1]), N("null")] + body)
+    # unions of ONE branch (legal, rare): the only in-range index is 0
+    for x in ("string", "null", "long", "bytes"):
+        inner.append([N("union", variants=[1]), N(x)])
+    inner.append([N("union", variants=[1]), N("record", name="ns.Only", fields=[("a", 2)]), N("int")])
     for _ in range(30 if quick else 600):
         inner.append(D.plain_union_case(rng, None, wrapper="root"))
     for n in (1, 2, 3, 4, 63, 64, 65, 100):
@@ -163,10 +168,41 @@ def run(ctx):
                     blocks.append("(blk %d %s)" % ((signs >> j) & 1, " ".join(items[i:i + c])))
                     i += c
                 pairs.append(([G.Node("array", items=1), G.Node("int")], "(array%s)" % "".join(" " + b for b in blocks)))
+    # values that hold SEVERAL sequences (sibling arrays / maps, nested ones, rows of them): for the small max_seq_size below
+    import directed as D
+    for _ in range(260 if ctx["tier"] == "quick" else 8000):
+        nodes = D.multi_seq_case(rng)
+        vg = G.ValueGen(rng, nodes)
+        if rng.random() < 0.6:
+            vg.array_len = {k: rng.randint(1, 4) for k, nd in enumerate(nodes) if nd.t == "array"}
+        v = vg.gen(0)
+        if v is not None:
+            pairs.append((nodes, v))
     sp = codec.spec_batch(pairs)
     lines, meta = [], []
+    dem_lines, dem_meta = [], []
     for s in sp:
         enc = C.unhex(s["enc"])
+        # DeserializerConfig::max_seq_size bounds the length of EACH array / map: with the limit set to the length of the
+        # longest sequence of the value (every sequence within it, their total beyond it) the value is still the defined
+        # one, under every target; one item less and the model decides (Err, unless the long one is skipped block-wise)
+        longest, total, nseq = D.seq_stats(s["evalue"])
+        if nseq >= 1 and longest >= 1:
+            if nseq >= 2:
+                for tg, exp in rng.sample([("any", s["dany"]), (s["ttarget"], s["dtyped"]), ("ignored", "ignored")], 2):
+                    mode = rng.choice(["slice", "slice", "(chunks 1)", "(chunks %d)" % rng.randint(2, 9)])
+                    lines.append("de %s %s %s %s (cfg %d 64)" % (s["schema"], tg, s["enc"], mode, longest))
+                    meta.append(("valid-max_seq_size-tight", "(ok %s 0)" % exp, s))
+                lines.append("de %s %s %s slice (cfg %d 64)" % (s["schema"], rng.choice(["any", s["ttarget"], "ignored"]), s["enc"], longest - 1))
+                meta.append(("max_seq_size-below", "model", s))
+            # several datums through ONE DeserializerState (state.deserializer() per datum, as a stream of datums is read):
+            # the limit applies to each sequence of each datum
+            if len(enc) < 400 and rng.random() < 0.5:
+                k = rng.randint(2, 6)
+                tg, exp = rng.choice([("any", s["dany"]), (s["ttarget"], s["dtyped"])])
+                mode = rng.choice(["slice", "slice", "(chunks 1)", "(chunks %d)" % rng.randint(2, 9)])
+                dem_lines.append("dem %s %s %s %s (cfg %d 64) %d" % (s["schema"], tg, C.hx(enc * k), mode, longest, k))
+                dem_meta.append("(ok%s 0)" % ((" (ok %s)" % exp) * k))
         for tg, exp in (("any", s["dany"]), ("typed", s["dtyped"])):
             target = "any" if tg == "any" else s["ttarget"]
             lines.append("de %s %s %s slice" % (s["schema"], target, s["enc"]))
@@ -217,6 +253,15 @@ def run(ctx):
     for line, kind in index_malformations(rng, ctx["tier"] == "quick"):
         lines.append(line)
         meta.append((kind, "err", None))
+    # the EMPTY union has no value at all: every index is outside the schema, under every target (Option<_> has its own lookup)
+    N = G.Node
+    for d in (0, 1, 2, -1, 63, 2**40):
+        for tg, wn, pre, post in (("%s", [N("union", variants=[])], b"", b""),
+                                  ("(struct x575f5f (x68 i32) (x75 %s) (x74 str))", [N("record", name="W__", fields=[("h", 1), ("u", 2), ("t", 3)]), N("int"), N("union", variants=[]), N("string")], G.varint(7), b"\x02t"),
+                                  ("(seq %s)", [N("array", items=1), N("union", variants=[])], G.varint(1), b"\x00")):
+            for inner_t in ("any", "(option any)", "(option ignored)", "(option str)", "(option i64)", "ignored", "(enum x55 (unit x4e756c6c))"):
+                lines.append("de %s %s %s %s" % (G.schema_sx(wn), tg % inner_t, C.hx(pre + G.varint(d) + rng.choice([b"", b"\x06abc"]) + post), rng.choice(["slice", "(chunks 1)"])))
+                meta.append(("malformed: index %d of an empty union" % d, "err", None))
     impl, model = codec.both(lines)
     violations, diffs, samples, distinct = [], [], [], set()
     from collections import Counter
@@ -226,6 +271,8 @@ def run(ctx):
         dist[kind.split(":")[0]] += 1
         if not C.same_outcome(ri, rm):
             diffs.append(codec.diff_entry(line, ri, rm))
+        if want == "model":
+            continue
         if want == "err":
             if not ri.startswith("(err"):
                 violations.append({"impl_case": line, "what": "%s was not rejected" % kind, "impl": ri[:300]})
@@ -234,7 +281,15 @@ def run(ctx):
                                "impl": ri[:400], "expected": want[:400]})
         if len(samples) < 6 and kind.startswith("malformed"):
             samples.append({"kind": kind, "case": line[:200]})
-    return {"evaluations": len(lines), "distinct_nontrivial": len(distinct),
+    # streams of datums through one state (harness `dem`): each datum must be the defined value (the specification's; the
+    # model was compared on the single datum under the same configuration above)
+    for line, ri, want in zip(dem_lines, C.run_parallel(C.AVRODRIVE, dem_lines), dem_meta):
+        distinct.add(line)
+        dist["stream-of-datums-one-state"] += 1
+        if G.erase_borrow_text(ri) != want:
+            violations.append({"impl_case": line, "what": "a stream of valid datums read through one DeserializerState (max_seq_size = the "
+                               "longest sequence of a datum): some datum did not decode to the defined value", "impl": ri[:400], "expected": want[:400]})
+    return {"evaluations": len(lines) + len(dem_lines), "distinct_nontrivial": len(distinct),
             "rule": "valid encodings produced by the extracted specification encoder: random schemas/values with random block layouts, ALL block "
                     "layouts (compositions x sign patterns) of arrays of 0..4 items, decoded under the dynamic and the typed target, followed by "
                     "trailing data; the same encodings through serde's IgnoredAny at the root (alone and followed by data: exactly the encoding "
@@ -246,5 +301,8 @@ def run(ctx):
                     "encodings (nullable unions over every leaf kind, unions of 1..3 non-null branches, enums of 1..100 symbols; at the root, in "
                     "arrays, maps, record fields; index replaced by n, n+1, negative, huge) decoded under the dynamic target, the ordinary Rust "
                     "types (Option<T>, enum by branch name, Option<enum>) and Option<any>/IgnoredAny/unit-variant targets: must be rejected; "
+                    "values with SEVERAL sequences (sibling / nested arrays and maps, rows) under max_seq_size = the length of the longest "
+                    "one (any / typed / IgnoredAny targets: the defined value; one less: the model decides) and streams of 2..6 such datums read "
+                    "through ONE DeserializerState (harness `dem`: each datum the defined value); "
                     "model vs crate on everything",
             "samples": samples, "violations": violations, "model_diffs": diffs, "distribution": dict(dist), "exhaustive": False}
